@@ -66,13 +66,24 @@ def findFree (taken : List Blk) (base : Nat) : Nat → Nat → Nat
   | p, 0 => p
   | p, fuel + 1 => if (⟨base, p⟩ : Blk) ∈ taken then findFree taken base (p + 1) fuel else p
 
-/-- lines 277-294: the duplicate test and the padding; `taken` are the bytecodes of the code objects in
-    `code_hash_map`.  Returns the code object that ends up registered and the new `dupes_map` -/
-def padStep (dupes : List (Blk × Nat)) (taken : List Blk) (code : Code) : Code × List (Blk × Nat) :=
+/-- another registered code object already has the bytecode of `code` (`c is not code and c.co_code == code.co_code`) -/
+def clashes (codes : List Code) (code : Code) : Bool :=
+  codes.any fun c => decide (c ≠ code) && decide (c.blk = code.blk)
+
+/-- the duplicate test and the padding of `add_function`; `codes` are the code objects in `code_hash_map`.  A bytecode counts as
+    a duplicate when `dupes_map` knows it **or** when it is already traced for another code object (repair of F-C04c: a function
+    that an earlier profiler had padded arrives with exactly the bytes this profiler gave to a duplicate of its own); the padded
+    bytecode is lengthened until no registered code object has it (repair of F-C04b).  Returns the code object that ends up
+    registered and the new `dupes_map` (value = length of the list stored under the key) -/
+def padStep (dupes : List (Blk × Nat)) (codes : List Code) (code : Code) : Code × List (Blk × Nat) :=
   match alookup code.blk dupes with
-  | some n => ({ code with blk := { code.blk with pad := findFree taken code.blk.base (code.blk.pad + (n + 2)) (maxPad taken + 1) } },
+  | some n => ({ code with blk := { code.blk with pad := findFree (codes.map (·.blk)) code.blk.base (code.blk.pad + (n + 2)) (maxPad (codes.map (·.blk)) + 1) } },
                aset code.blk (n + 1) dupes)
-  | none   => (code, dupes ++ [(code.blk, 1)])
+  | none   =>
+    if clashes codes code then
+      ({ code with blk := { code.blk with pad := findFree (codes.map (·.blk)) code.blk.base (code.blk.pad + 2) (maxPad (codes.map (·.blk)) + 1) } },
+       dupes ++ [(code.blk, 1)])
+    else (code, dupes ++ [(code.blk, 1)])
 
 /-- lines 292-299: one iteration per *distinct* line (further offsets of a line find the hash present) -/
 def regLine (code : Code) (acc : Core.ESt × List (Code × List (Blk × Int))) (l : Int) :
@@ -81,7 +92,7 @@ def regLine (code : Code) (acc : Core.ESt × List (Code × List (Blk × Int))) (
   else (acc.1.addRegs [(code.blk, l)], aappend code (code.blk, l) acc.2)
 
 def St.addCode (s : St) (f : Nat) (code : Code) : St :=
-  let (code', dupes') := padStep s.dupes (s.chm.map (·.1.blk)) code
+  let (code', dupes') := padStep s.dupes (s.chm.map (·.1)) code
   let (core', chm') := code'.allLines.foldl (regLine code') (s.core, s.chm)
   { s with core := core', chm := chm', dupes := dupes', funcs := aset f code' s.funcs,
            nfuncs := s.nfuncs + 1 }
